@@ -16,9 +16,9 @@
    * int32 fields of UserControl are carried as their uint32 pattern.
    * [unmarshal r data] = r.UnmarshalBinary(data) for a receiver [r]; receivers are the values the
      New...() constructors build ([new_of_kind]); of the receiver only the fields the code leaves
-     untouched matter (Args of a call, ExtraData of a user control, every field on error).  For
-     the two objectCallPacket types the receiver's command object is taken to be empty, as
-     constructed (Object.UnmarshalBinary appends to existing properties).
+     untouched matter (Args of a call, ExtraData of a user control, every field on error).  The
+     command object a receiver already holds does not matter: Object.UnmarshalBinary replaces
+     the receiver's properties (amf0 fix 8324535; Proofs/Amf0Recv.v unmarshal_overwrites).
    * every slice expression [p[n:]] is [drop n p site]: Panic when n > len(p).
    Error codes (the harness derives the same code from the error text):
      1 "Empty packet"  2 "Unknown message"  3 parse: "unmarshal command name"  4 parse: "unmarshal tid"
